@@ -782,6 +782,12 @@ REGRESSION = [
     ("pub(self) Foo", "pub mod m { pub fn foo(d: &impl A) {} }"),
     ("pub(in self::super) Foo", "mod m { pub fn foo(d: &impl A) {} }"),
     ("pub(in super::super::a) Foo", "mod m { pub fn foo(d: &impl A) {} }"),
+    # F23 / F25: binders and fn lifetimes among the bounds of the dependency
+    ("Foo", "fn get<D>(deps: &D) where for<'x> D: Repo<'x> {}"),
+    ("Foo", "fn l<'x, D: A + 'x + 'static + ?Sized>(deps: &'x D, t: &'x i32) -> &'x i32 where D: 'x + Sync { t }"),
+    ("Foo", "fn l<'x>(deps: &'x (impl A + 'x), t: &'x i32) -> &'x i32 { t }"),
+    ("Foo", "mod m { pub fn l<'x, 'y, D: 'y>(deps: &'x D) where D: 'x {} pub fn k<'y, D: A + 'y>(deps: D) {} }"),
+    ("", "impl FooImpl for MyType { fn l<'x, D: A + 'x>(deps: &'x D) {} }"),
     # F21: raw identifiers are the identifiers they spell
     ("Foo", "fn rawy(_: &impl A, _: i32, r#arg0: i32) {}"),
     ("Foo", "fn foo(_: &impl A, r#foo: i32) {}"),
